@@ -42,4 +42,16 @@ CHECKS["C10"] = {
     "text": "C10: actor starts <= M, run() returns, the other messages are still waiting with unchanged parameters; plus the run-on-enqueue plugin with M=1.",
     "note": "in-memory broker; M in [1,2(3)], backlog M+1..M+2, 1-2 queues, durations zero or (0, 3 ms]",
 }
+CHECKS["C03"] = {
+    "engine": "symx+vloop",
+    "technique": "symbolic execution of Worker.run() on a virtual-time loop with the stop signal injected at every event-loop step (solver-enumerated crash point) and a symbolic real graceful period",
+    "text": "C03: after return and loop idle every message is in exactly one place, returned copies are unchanged, nothing is left in flight, and run() returns within graceful + 6 s.",
+    "note": "in-memory broker; crash point granularity = loop iteration; 1-2 messages, 4 actor kinds; Redis stop/death scenarios use the fake server; RabbitMQ and real process kill are outside the claim",
+}
+CHECKS["C05"] = {
+    "engine": "symx+vloop+fakes",
+    "technique": "symbolic execution (z3) of the enqueue/requeue/reject -> consume path of each broker with symbolic due time and clock (microseconds, every position in a clock second); in-memory polling on a virtual-time loop with symbolic real phases; RabbitMQ: the published expiration/routing",
+    "text": "C05: delivered => now >= T - 1 ms; due for more than the latency bound => delivered; before that only the delayed category returns it.",
+    "note": "Redis and AMQP servers are in-process fakes (fakes/); RabbitMQ server-side expiry is not modelled (client obligation only); 'millisecond resolution' read as 1 ms tolerance",
+}
 NOT_APPLICABLE = {}
